@@ -68,10 +68,10 @@ def macro_key(defines):
 def cells_for(seed, tier, mi):
     """[(cell name, cplus, flags, defines, directives)] besides the baseline."""
     if tier == "quick":
-        # 4 jobs per run: the kernel donor twice (job 0: -O2 + macro subsets 0-2, job 1: macro subsets 3-5; the 6 drawn
-        # subsets of 4 macros together cover all macro settings), job 2: C++ + one neutral directive, job 3: Limited API
-        cells = [[("O2", False, O2, [], None)], [], [("cpp", True, O0, [], None)],
-                 [("limited", False, O0, list(LIMITED), None)]][mi % 4]
+        # 4 jobs per run: the kernel donor twice (job 0: macro subsets 0-2, job 1: macro subsets 3-5; the 6 drawn
+        # subsets of 4 macros together cover all macro settings), job 2: C++ + one neutral directive, job 3: Limited API and -O2
+        cells = [[], [], [("cpp", True, O0, [], None)],
+                 [("limited", False, O0, list(LIMITED), None), ("O2", False, O2, [], None)]][mi % 4]
         perm = hyp.draw_many(st.permutations(MACROS), 2, seed, "c39macros")[-1]
         per = 4
         for j in {0: (0, 1, 2), 1: (3, 4, 5), 2: (), 3: ()}[mi % 4]:
@@ -210,6 +210,7 @@ def _module_job(job):
         part.classes["baseline-build-failed: " + str(e)[-100:].replace("\n", " ")] += 1
         return part
     base_pre = {}
+    attributed = {}
     for cell in cells_for(seed, tier, mi):
         cname, cplus, flags, defines, directives = cell
         ccase = {"header": dinfo["header"], "setup": dinfo["setup"], "always_log": dinfo["always_log"], "cplus": cplus,
@@ -255,7 +256,10 @@ def _module_job(job):
                 cls = diffmod.compare(b, g, "full")
                 if cls is None:
                     continue
-                culprit = attribute(it, c["expr"], dinfo, cell, cls, os.path.join(outdir, "attr_%d" % idx))
+                akey = (it["src"], cname)
+                if akey not in attributed and len(attributed) < 6:      # bounded: each attribution costs up to 5 small builds
+                    attributed[akey] = attribute(it, c["expr"], dinfo, cell, cls, os.path.join(outdir, "attr_%d" % idx))
+                culprit = attributed.get(akey)
                 label = ("macros:" + macro_key([culprit])) if culprit else cname
                 agrees = "cell agrees with CPython" if diffmod.compare(r, g, "full") is None else (
                     "baseline agrees with CPython" if diffmod.compare(r, b, "full") is None else "neither agrees with CPython")
@@ -280,8 +284,8 @@ def run(ctx):
     ctx.pmap(_module_job, [(ctx.seed, ctx.tier, mi, dn, ctx.work) for dn, mi in plan])
     ctx.extra["donors"] = ds
     ctx.rule = ("donor modules (cfgkernels: 41 kernels x 14 drawn argument tuples; others 10/20 generated items; quick: cfgkernels x2, excprog|evalorder, pyprog) translated once by Cython and built "
-                "in cells: quick: kernels: -O2 + 6 drawn subsets of 4 feature macros (the deal covers all 22 macro settings per run), "
-                "excprog|evalorder: C++17 + 1 neutral directive, pyprog: Limited API; thorough: -O2, C++17, Limited API, every macro alone, COMPRESS_STRINGS 0/1/2/90, -O3, C++ -O2, Limited -O2, "
+                "in cells: quick: kernels: 6 drawn subsets of 4 feature macros (the deal covers all 22 macro settings per run), "
+                "excprog|evalorder: C++17 + 1 neutral directive, pyprog: Limited API and -O2; thorough: -O2, C++17, Limited API, every macro alone, COMPRESS_STRINGS 0/1/2/90, -O3, C++ -O2, Limited -O2, "
                 "3 drawn 2-5 macro combinations, 5 directives. One evaluation per (call, cell): canonical outcome equal to the baseline "
                 "cell (C, -O0). non-trivial = the cell's preprocessed translation unit differs from the baseline's (-E -P hash) or the "
                 "cell changes optimisation level / language / directives; distinct by (item source, call, cell)")
